@@ -14,11 +14,13 @@ struct CfgRaw {
 	static constexpr char const* name = "raw";
 	static constexpr bool based = false;
 	template<class T> using alloc = std::allocator<T>;
+	template<class T> using ptr = T*;
+	template<class T> static T* make_ptr(T* p, long /*n*/) { return p; }
+	static void release_ptr(void* /*p*/) {}
 };
-struct CfgBased {
+struct CfgBased : CfgRaw {
 	static constexpr char const* name = "based";
 	static constexpr bool based = true;
-	template<class T> using alloc = std::allocator<T>;
 };
 
 enum RootKind { RK_ARRAY, RK_ARRAY_CONST, RK_STATIC, RK_REF, RK_REF_CONST, RK_STATIC_CONST, NROOTKINDS };
@@ -75,7 +77,8 @@ void with_root(RootSpec<D> const& r, Body&& body) {
 			ASAN_POISON_MEMORY_REGION(buf.data(), G*sizeof(T));
 			ASAN_POISON_MEMORY_REGION(p + r.N, G*sizeof(T));
 			struct Unpoison { std::vector<T>& b; ~Unpoison() { ASAN_UNPOISON_MEMORY_REGION(b.data(), b.size()*sizeof(T)); } } unp{buf};
-			multi::array_ref<T, D> R(x, p);
+			multi::array_ref<T, D, typename Cfg::template ptr<T>> R(x, Cfg::make_ptr(p, r.N));
+			struct Release { T* q; ~Release() { Cfg::release_ptr(q); } } rel{p};
 			if constexpr(MutableOnly) { body(R, m, p, r.N); } else { if(r.kind == RK_REF) { body(R, m, p, r.N); } else { body(std::as_const(R), m, p, r.N); } }
 			return;
 		}
